@@ -48,10 +48,11 @@ def generate(ck):
         {"cls": "single", "nx": 400, "table": {"kind": "shipped", "name": "pvt_oil_single"}, "p_i": 6000.0, "p_f": 1000.0, "alpha_branch": False, "schedule": None, "grid": {"family": "geometric", "nt": 40, "t_end": 5.0, "seed": 3}},
     ]
     descs.append({"cls": "ideal", "nx": 40, "p_i": 8000.0, "p_f": 100.0, "alpha_var": {"kind": "linear", "beta": 3.0}, "grid": {"family": "dyadic-blocks", "nt": 60, "t_end": 2.0, "seed": 4}})
+    descs.append({"cls": "ideal", "nx": 30, "p_i": 8000.0, "p_f": 100.0, "alpha_var": {"kind": "stored-x", "beta": 3.0}, "grid": {"family": "quadratic", "nt": 80, "t_end": 2.0, "seed": 4}})
     for _ in range(n):
         d = sim.random_sim_desc(rng, ck.tier, twophase_share=0.08)
         if d["cls"] == "ideal" and rng.random() < 0.5:
-            d["alpha_var"] = {"kind": str(rng.choice(["linear", "exp", "step"])), "beta": float(rng.choice([0.5, 3.0, 20.0]))}
+            d["alpha_var"] = {"kind": str(rng.choice(["linear", "exp", "step", "stored-x"])), "beta": float(rng.choice([0.5, 3.0, 20.0]))}
         descs.append(d)
         if len(descs) % 45 == 0:
             # a group of four simulations with one node count, to be run at the same time
